@@ -16,7 +16,7 @@ use crate::rt::*;
 pub const PIPE_BASE: usize = 1_000_000;
 
 /// A conformant input stream whose items arrive when the firer pushes them
-pub struct ScriptStream { ctx: Arc<RunCtx>, p: usize, inner: Option<futures::channel::mpsc::UnboundedReceiver<OpId>> }
+pub struct ScriptStream { ctx: Arc<RunCtx>, p: usize, inner: Option<futures::channel::mpsc::UnboundedReceiver<OpId>>, wakes_left: usize }
 
 impl Stream for ScriptStream {
     type Item = OpId;
@@ -24,6 +24,13 @@ impl Stream for ScriptStream {
     fn poll_next(mut self: Pin<&mut Self>, cx: &mut Context<'_>) -> Poll<Option<OpId>> {
         let ctx = Arc::clone(&self.ctx);
         let p = self.p;
+        if self.wakes_left > 0 {
+            // "not ready yet, ask again": wake the task from inside the poll and return Pending
+            self.wakes_left -= 1;
+            { let mut c = ctx.pipes[p].input.lock().unwrap(); c.polls += 1; c.pending_polls += 1; }
+            cx.waker().wake_by_ref();
+            return Poll::Pending;
+        }
         let r = if let Some(inner) = self.inner.as_mut() {
             let r = inner.poll_next_unpin(cx);
             let mut c = ctx.pipes[p].input.lock().unwrap();
@@ -75,7 +82,7 @@ pub fn create(ctx: &Arc<RunCtx>, tls: &mut ThreadLocalState, p: usize) {
 
     let inner = st.mpsc_rx.lock().unwrap().take();
 
-    let stream  = ScriptStream { ctx: Arc::clone(ctx), p, inner };
+    let stream  = ScriptStream { ctx: Arc::clone(ctx), p, inner, wakes_left: def.self_wakes };
     let canary  = ClosureCanary { ctx: Arc::clone(ctx), p };
     let c2      = Arc::clone(ctx);
     st.created.store(clock(), ORD);
